@@ -35,6 +35,126 @@ def arm_named(rows, name):
     return None
 
 
+FLOAT_TRUTH = {"Lt": {"L"}, "Le": {"L", "E"}, "Gt": {"G"}, "Ge": {"G", "E"}, "Eq": {"E"}, "Ne": {"L", "G", "U"}}
+ORD_METHODS = {"is_lt": {"L"}, "is_le": {"L", "E"}, "is_gt": {"G"}, "is_ge": {"G", "E"}, "is_eq": {"E"}, "is_ne": {"L", "G"}}
+ALL4 = {"L", "E", "G", "U"}
+
+
+def _outcomes_of_pattern(desc):
+    """Outcomes (L/E/G/U) a pattern over Option<Ordering> accepts, from its textual description."""
+    out = set()
+    for alt in desc:
+        if alt == "_":
+            return set(ALL4)
+        if alt.endswith("None"):
+            out.add("U")
+        for nm, o in (("Less", "L"), ("Equal", "E"), ("Greater", "G")):
+            if "Ordering::" + nm in alt:
+                out.add(o)
+        if re.search(r"Some\(_\)$", alt):
+            out |= {"L", "E", "G"}
+    return out
+
+
+def ordering_truth(ld, body):
+    """If `body` decides a float comparison from `left.as_f64().partial_cmp(&right.as_f64())`, return (set of outcomes for which it
+    is true, operand roots, accessors); otherwise None. Outcomes: L, E, G and U (unordered: partial_cmp gave None)."""
+    body = hir.strip(body)
+    ordnode = {}
+
+    def find_ord(e):
+        """the partial_cmp call an expression denotes (directly or through a let)"""
+        e = hir.peel_refs(hir.strip(e))
+        if e.get("k") == "mcall" and e["m"] == "partial_cmp":
+            return e
+        if e.get("k") == "path" and hir.res_local(e) is not None:
+            d = ld.get(hir.res_local(e))
+            if d and d[1] is not None and not (d[2] and d[2][0] == "arm"):
+                return find_ord(d[1])
+        return None
+
+    def some_ordering(e):
+        e = hir.strip(e)
+        if e.get("k") == "call" and hir.last(hir.call_def(e) or "") == "Some" and e["args"]:
+            a = hir.strip(e["args"][0])
+            nm = hir.last(hir.res_def(a) or "") if a.get("k") == "path" else ""
+            return {"Less": "L", "Equal": "E", "Greater": "G"}.get(nm)
+        if e.get("k") == "path" and hir.last(hir.res_def(e) or "") == "None":
+            return "U"
+        return None
+
+    def ev(e):
+        e = hir.strip(e)
+        k = e.get("k")
+        if k == "bin" and e.get("op") in ("==", "!="):
+            for x, y in ((e["a"], e["b"]), (e["b"], e["a"])):
+                pc = find_ord(x)
+                o = some_ordering(y)
+                if pc is not None and o is not None:
+                    ordnode["pc"] = pc
+                    return {o} if e["op"] == "==" else ALL4 - {o}
+            return None
+        if k == "bin" and e.get("op") in ("&&", "||"):
+            a, b_ = ev(e["a"]), ev(e["b"])
+            if a is None or b_ is None:
+                return None
+            return (a & b_) if e["op"] == "&&" else (a | b_)
+        if k == "un" and e.get("op") == "!":
+            a = ev(e["a"])
+            return None if a is None else ALL4 - a
+        if k == "match":
+            pc = find_ord(e["e"])
+            if pc is None:
+                return None
+            ordnode["pc"] = pc
+            truth = set()
+            taken = set()
+            for arm in e["arms"]:
+                if arm.get("guard"):
+                    return None
+                acc = _outcomes_of_pattern(hir.pat_alternatives(arm["pat"])) - taken
+                taken |= acc
+                v = hir.strip(arm["body"])
+                if v.get("k") != "lit" or not isinstance(v.get("v"), bool):
+                    return None
+                if v["v"]:
+                    truth |= acc
+            return truth
+        if k == "mcall" and e["m"] in ("is_some_and", "map_or") and find_ord(e["recv"]) is not None:
+            args = e["args"]
+            if e["m"] == "map_or":
+                d0 = hir.strip(args[0])
+                if d0.get("k") != "lit" or not isinstance(d0.get("v"), bool) or len(args) < 2:
+                    return None
+                default, f = d0["v"], args[1]
+            else:
+                default, f = False, args[0]
+            f = hir.strip(f)
+            name = None
+            if f.get("k") == "path":
+                name = hir.last(hir.res_def(f) or "")
+            elif f.get("k") == "closure":
+                cb = hir.strip(f.get("body") or {})
+                if cb.get("k") == "mcall":
+                    name = cb["m"]
+            if name not in ORD_METHODS:
+                return None
+            ordnode["pc"] = find_ord(e["recv"])
+            return ORD_METHODS[name] | ({"U"} if default else set())
+        return None
+    truth = ev(body)
+    if truth is None or "pc" not in ordnode:
+        return None
+    pc = ordnode["pc"]
+    sides = []
+    accs = []
+    for sx in (pc["recv"], pc["args"][0]):
+        sx = hir.peel_refs(hir.strip(sx))
+        accs.append(sx["m"] if sx.get("k") == "mcall" and sx["m"].startswith("as_") else None)
+        sides.append(sorted(field_roots(ld, sx) - {"vars", "param:vars"}))
+    return truth, sides, accs
+
+
 def rule_v1(F):
     r = RuleResult("C20.V1", "per-instruction agreement of the evaluator's arms with the code generator's", floor=10 + 6 + 40 + 2 + 6)
     b = find_body(F, "lir::eval::eval", r)
@@ -83,6 +203,18 @@ def rule_v1(F):
             else:
                 want_op = CMPOP.get(v[-2:])
                 want_acc = acc or ("as_u64" if v[0] == "U" else "as_i64")
+            if enum == "FloatCmp::":
+                tt = ordering_truth(ld, body)
+                if tt is not None:
+                    truth, operands, accs = tt
+                    want = FLOAT_TRUTH[v]
+                    r.inst(key, {"row": key, "form": "partial_cmp", "true_for": sorted(truth), "expected": sorted(want), "operands": operands})
+                    if truth != want:
+                        r.bad(b.path, key, relfile(b.file), row["line"],
+                              "%s is true for the orderings %s (U = unordered, a NaN operand), the compiled fcmp condition is true for %s" % (key, sorted(truth), sorted(want)))
+                    if operands != [["left"], ["right"]] or accs != ["as_f64", "as_f64"]:
+                        r.bad(b.path, key + " operand order", relfile(b.file), row["line"], "%s compares %s via %s, expected left.as_f64() with right.as_f64()" % (key, operands, accs))
+                    continue
             if body.get("k") != "bin":
                 r.inst(key, {"row": key, "shape": body.get("k")})
                 r.bad(b.path, key, relfile(b.file), row["line"], "row for %s is not a comparison expression" % key)
